@@ -26,8 +26,8 @@ func init() {
 
 // foldPure evaluates a single-block function of integer parameters with exact Go integer semantics.
 func foldPure(fn *ssa.Function, args map[*ssa.Parameter]*big.Int) (*big.Int, string) {
-	if len(fn.Blocks) != 1 {
-		return nil, "the function has control flow"
+	if !loopFree(fn) {
+		return nil, "the function has a loop"
 	}
 	val := map[ssa.Value]*big.Int{}
 	get := func(v ssa.Value) (*big.Int, bool) {
@@ -61,107 +61,184 @@ func foldPure(fn *ssa.Function, args map[*ssa.Parameter]*big.Int) (*big.Int, str
 		}
 		return new(big.Int).Sub(hi, lo).BitLen()
 	}
-	for _, ins := range fn.Blocks[0].Instrs {
-		switch x := ins.(type) {
-		case *ssa.BinOp:
-			a, ok1 := get(x.X)
-			b, ok2 := get(x.Y)
-			if !ok1 || !ok2 {
-				return nil, "operand of " + x.String() + " is not a constant"
-			}
-			var r *big.Int
-			switch x.Op {
-			case token.ADD:
-				r = new(big.Int).Add(a, b)
-			case token.SUB:
-				r = new(big.Int).Sub(a, b)
-			case token.MUL:
-				r = new(big.Int).Mul(a, b)
-			case token.SHL:
-				if b.Sign() < 0 {
-					return nil, "negative shift count (run-time panic)"
-				}
-				if b.Cmp(big.NewInt(int64(bits(x.Type())))) >= 0 {
-					r = big.NewInt(0)
-				} else {
-					r = new(big.Int).Lsh(a, uint(b.Int64()))
-				}
-			case token.SHR:
-				if b.Sign() < 0 {
-					return nil, "negative shift count (run-time panic)"
-				}
-				if b.Cmp(big.NewInt(int64(bits(x.Type())))) >= 0 {
-					if a.Sign() < 0 {
-						r = big.NewInt(-1)
-					} else {
-						r = big.NewInt(0)
+	// loop-free control flow is followed branch by branch (`if timeout > max { return max }`): comparisons fold to
+	// 0/1, a phi takes the value of the edge the evaluation arrived through
+	blk := fn.Blocks[0]
+	var prevBlk *ssa.BasicBlock
+	for steps := 0; steps < 64; steps++ {
+		var next *ssa.BasicBlock
+		for _, ins := range blk.Instrs {
+			switch x := ins.(type) {
+			case *ssa.Phi:
+				for k, pb := range blk.Preds {
+					if pb == prevBlk {
+						if v, ok := get(x.Edges[k]); ok {
+							val[x] = v
+						}
 					}
-				} else {
-					r = new(big.Int).Rsh(a, uint(b.Int64()))
 				}
-			case token.QUO:
-				if b.Sign() == 0 {
-					return nil, "division by zero"
-				}
-				r = new(big.Int).Quo(a, b)
-			case token.REM:
-				if b.Sign() == 0 {
-					return nil, "division by zero"
-				}
-				r = new(big.Int).Rem(a, b)
-			default:
-				return nil, "unsupported operator " + x.Op.String()
-			}
-			w, ok := wrap(r, x.Type())
-			if !ok {
-				return nil, "non-integer result type"
-			}
-			val[x] = w
-		case *ssa.Convert:
-			a, ok := get(x.X)
-			if !ok {
-				return nil, "operand of conversion is not a constant"
-			}
-			w, ok := wrap(a, x.Type())
-			if !ok {
-				return nil, "conversion to a non-integer type"
-			}
-			val[x] = w
-		case *ssa.ChangeType:
-			a, ok := get(x.X)
-			if !ok {
-				return nil, "operand is not a constant"
-			}
-			val[x] = a
-		case *ssa.Call:
-			bi, ok := x.Call.Value.(*ssa.Builtin)
-			if !ok || (bi.Name() != "min" && bi.Name() != "max") {
-				return nil, "call to " + x.Call.Value.Name() + " (not a pure builtin)"
-			}
-			var r *big.Int
-			for _, a := range x.Call.Args {
-				v, ok := get(a)
+			case *ssa.If:
+				cv, ok := get(x.Cond)
 				if !ok {
-					return nil, "argument of " + bi.Name() + " is not a constant"
+					return nil, "branch condition is not a constant"
 				}
-				if r == nil || (bi.Name() == "min" && v.Cmp(r) < 0) || (bi.Name() == "max" && v.Cmp(r) > 0) {
-					r = v
+				if cv.Sign() != 0 {
+					next = blk.Succs[0]
+				} else {
+					next = blk.Succs[1]
 				}
+			case *ssa.Jump:
+				next = blk.Succs[0]
+			case *ssa.UnOp:
+				a, ok := get(x.X)
+				if !ok {
+					return nil, "operand of " + x.String() + " is not a constant"
+				}
+				switch x.Op {
+				case token.NOT:
+					if a.Sign() == 0 {
+						val[x] = big.NewInt(1)
+					} else {
+						val[x] = big.NewInt(0)
+					}
+				case token.SUB:
+					w, ok := wrap(new(big.Int).Neg(a), x.Type())
+					if !ok {
+						return nil, "non-integer result type"
+					}
+					val[x] = w
+				default:
+					return nil, "unsupported operator " + x.Op.String()
+				}
+			case *ssa.BinOp:
+				a, ok1 := get(x.X)
+				b, ok2 := get(x.Y)
+				if !ok1 || !ok2 {
+					return nil, "operand of " + x.String() + " is not a constant"
+				}
+				switch x.Op {
+				case token.LSS, token.LEQ, token.GTR, token.GEQ, token.EQL, token.NEQ:
+					c := a.Cmp(b)
+					t := false
+					switch x.Op {
+					case token.LSS:
+						t = c < 0
+					case token.LEQ:
+						t = c <= 0
+					case token.GTR:
+						t = c > 0
+					case token.GEQ:
+						t = c >= 0
+					case token.EQL:
+						t = c == 0
+					case token.NEQ:
+						t = c != 0
+					}
+					if t {
+						val[x] = big.NewInt(1)
+					} else {
+						val[x] = big.NewInt(0)
+					}
+					continue
+				}
+				var r *big.Int
+				switch x.Op {
+				case token.ADD:
+					r = new(big.Int).Add(a, b)
+				case token.SUB:
+					r = new(big.Int).Sub(a, b)
+				case token.MUL:
+					r = new(big.Int).Mul(a, b)
+				case token.SHL:
+					if b.Sign() < 0 {
+						return nil, "negative shift count (run-time panic)"
+					}
+					if b.Cmp(big.NewInt(int64(bits(x.Type())))) >= 0 {
+						r = big.NewInt(0)
+					} else {
+						r = new(big.Int).Lsh(a, uint(b.Int64()))
+					}
+				case token.SHR:
+					if b.Sign() < 0 {
+						return nil, "negative shift count (run-time panic)"
+					}
+					if b.Cmp(big.NewInt(int64(bits(x.Type())))) >= 0 {
+						if a.Sign() < 0 {
+							r = big.NewInt(-1)
+						} else {
+							r = big.NewInt(0)
+						}
+					} else {
+						r = new(big.Int).Rsh(a, uint(b.Int64()))
+					}
+				case token.QUO:
+					if b.Sign() == 0 {
+						return nil, "division by zero"
+					}
+					r = new(big.Int).Quo(a, b)
+				case token.REM:
+					if b.Sign() == 0 {
+						return nil, "division by zero"
+					}
+					r = new(big.Int).Rem(a, b)
+				default:
+					return nil, "unsupported operator " + x.Op.String()
+				}
+				w, ok := wrap(r, x.Type())
+				if !ok {
+					return nil, "non-integer result type"
+				}
+				val[x] = w
+			case *ssa.Convert:
+				a, ok := get(x.X)
+				if !ok {
+					return nil, "operand of conversion is not a constant"
+				}
+				w, ok := wrap(a, x.Type())
+				if !ok {
+					return nil, "conversion to a non-integer type"
+				}
+				val[x] = w
+			case *ssa.ChangeType:
+				a, ok := get(x.X)
+				if !ok {
+					return nil, "operand is not a constant"
+				}
+				val[x] = a
+			case *ssa.Call:
+				bi, ok := x.Call.Value.(*ssa.Builtin)
+				if !ok || (bi.Name() != "min" && bi.Name() != "max") {
+					return nil, "call to " + x.Call.Value.Name() + " (not a pure builtin)"
+				}
+				var r *big.Int
+				for _, a := range x.Call.Args {
+					v, ok := get(a)
+					if !ok {
+						return nil, "argument of " + bi.Name() + " is not a constant"
+					}
+					if r == nil || (bi.Name() == "min" && v.Cmp(r) < 0) || (bi.Name() == "max" && v.Cmp(r) > 0) {
+						r = v
+					}
+				}
+				val[x] = r
+			case *ssa.Return:
+				if len(x.Results) != 1 {
+					return nil, "not a single result"
+				}
+				v, ok := get(x.Results[0])
+				if !ok {
+					return nil, "result is not a constant"
+				}
+				return v, ""
+			case *ssa.DebugRef:
+			default:
+				return nil, fmt.Sprintf("unsupported instruction %T", ins)
 			}
-			val[x] = r
-		case *ssa.Return:
-			if len(x.Results) != 1 {
-				return nil, "not a single result"
-			}
-			v, ok := get(x.Results[0])
-			if !ok {
-				return nil, "result is not a constant"
-			}
-			return v, ""
-		case *ssa.DebugRef:
-		default:
-			return nil, fmt.Sprintf("unsupported instruction %T", ins)
 		}
+		if next == nil {
+			return nil, "no return"
+		}
+		prevBlk, blk = blk, next
 	}
 	return nil, "no return"
 }
